@@ -207,6 +207,8 @@ func newSysEnvFull(initial []sspec, vis []vsspec) (*sysEnv, error) {
 		return nil, err
 	}
 	e.srv, err = hx.StartServer(sysSrvAddr, func(c *v1.ServerConfig) {
+		c.VhostHTTPPort = hx.FreePort(sysSrvAddr)
+		c.SubDomainHost = sysSubHost
 		c.HTTPPlugins = []v1.HTTPPluginOptions{{Name: "c19", Addr: "http://" + e.plug.ln.Addr().String(), Path: "/h",
 			Ops: []string{"NewProxy", "CloseProxy"}}}
 	})
@@ -448,6 +450,241 @@ func (e *sysEnv) buildVisitor(s vsspec) v1.VisitorConfigurer {
 }
 
 const sysVisAddr = "127.0.19.5"
+const sysSubHost = "c19.test"
+
+// ---- http proxies: subdomain / custom domains x 0, 1, 2+ locations; the server's route table ----
+
+type hspec struct {
+	name   int
+	sub    bool // subdomain s<name>
+	custom int  // number of custom domains
+	nloc   int  // number of locations
+	rev    int  // any other field (hostHeaderRewrite): a different value makes the entry "changed"
+	hc     bool // tcp health check against the switchable backend
+}
+
+func (e *sysEnv) buildHTTP(s hspec, hcPort int) v1.ProxyConfigurer {
+	c := &v1.HTTPProxyConfig{}
+	c.Name = fmt.Sprintf("h%d", s.name)
+	c.Type = "http"
+	c.LocalIP = sysEchoAddr
+	c.LocalPort = e.echo.Port()
+	if s.sub {
+		c.SubDomain = fmt.Sprintf("s%d", s.name)
+	}
+	for i := 0; i < s.custom; i++ {
+		c.CustomDomains = append(c.CustomDomains, fmt.Sprintf("d%d-%d.example.org", s.name, i))
+	}
+	for i := 0; i < s.nloc; i++ {
+		c.Locations = append(c.Locations, fmt.Sprintf("/l%d", i))
+	}
+	c.HostHeaderRewrite = fmt.Sprintf("rev%d.internal", s.rev)
+	if s.hc {
+		c.LocalPort = hcPort
+		c.HealthCheck = v1.HealthCheckConfig{Type: "tcp", IntervalSeconds: 1, TimeoutSeconds: 1, MaxFailed: 1}
+	}
+	c.Complete("")
+	return c
+}
+
+func hroutes(set []hspec) []string {
+	var out []string
+	seen := map[int]bool{}
+	for _, s := range set {
+		if seen[s.name] {
+			continue
+		}
+		seen[s.name] = true
+		var domains []string
+		for i := 0; i < s.custom; i++ {
+			domains = append(domains, fmt.Sprintf("d%d-%d.example.org", s.name, i))
+		}
+		if s.sub {
+			domains = append(domains, fmt.Sprintf("s%d.%s", s.name, sysSubHost))
+		}
+		locs := []string{""}
+		if s.nloc > 0 {
+			locs = nil
+			for i := 0; i < s.nloc; i++ {
+				locs = append(locs, fmt.Sprintf("/l%d", i))
+			}
+		}
+		for _, d := range domains {
+			for _, l := range locs {
+				out = append(out, d+"|"+l+"|")
+			}
+		}
+	}
+	sort.Strings(out)
+	return out
+}
+
+func (e *sysEnv) serverRoutes() []string {
+	return e.srv.Svc.VerifResourceController().HTTPReverseProxy.VerifC10Routers().VerifC10Routes()
+}
+
+// httpSettled: route table = routes of the set, registered names = names of the set, all running
+func (e *sysEnv) httpSettled(set []hspec) string {
+	want := hroutes(set)
+	got := e.serverRoutes()
+	if strings.Join(want, ",") != strings.Join(got, ",") {
+		return fmt.Sprintf("route table of the server is %v, the configured http proxies need exactly %v", got, want)
+	}
+	names := map[string]bool{}
+	for _, s := range set {
+		names[fmt.Sprintf("h%d", s.name)] = true
+	}
+	for _, n := range e.serverNames() {
+		if !names[n] {
+			return fmt.Sprintf("%s is registered at the server but not configured", n)
+		}
+		delete(names, n)
+	}
+	for n := range names {
+		return fmt.Sprintf("%s is configured but not registered at the server", n)
+	}
+	for _, s := range set {
+		st, ok := e.cli.Svc.StatusExporter().GetProxyStatus(fmt.Sprintf("h%d", s.name))
+		if !ok || st.Phase != proxy.ProxyPhaseRunning {
+			ph, er := "absent", ""
+			if ok {
+				ph, er = st.Phase, st.Err
+			}
+			return fmt.Sprintf("client reports %q for h%d (%s)", ph, s.name, er)
+		}
+	}
+	return ""
+}
+
+func (e *sysEnv) waitHTTP(set []hspec, d time.Duration) string {
+	deadline := time.Now().Add(d)
+	msg := ""
+	for time.Now().Before(deadline) {
+		if msg = e.httpSettled(set); msg == "" {
+			return ""
+		}
+		time.Sleep(10 * time.Millisecond)
+	}
+	return msg
+}
+
+// runHTTPRoutes: reload cycles and a health cycle over http proxies with a subdomain and/or custom
+// domains and 0, 1, 2, 3 locations; after every step the server's route table must be exactly the routes
+// of the configured set and every configured proxy must be registered and running
+func runHTTPRoutes(wait time.Duration) (finds []sysFinding, err error) {
+	e, err := newSysEnv(nil)
+	if err != nil {
+		return nil, err
+	}
+	defer e.close()
+	// switchable backend for the health-checked proxy
+	bl, err := net.Listen("tcp", net.JoinHostPort(sysEchoAddr, "0"))
+	if err != nil {
+		return nil, err
+	}
+	hcPort := bl.Addr().(*net.TCPAddr).Port
+	accept := func(l net.Listener) {
+		for {
+			c, err := l.Accept()
+			if err != nil {
+				return
+			}
+			c.Close()
+		}
+	}
+	go accept(bl)
+	defer func() { bl.Close() }()
+
+	load := func(set []hspec) error {
+		cfgs := make([]v1.ProxyConfigurer, len(set))
+		for i, s := range set {
+			cfgs[i] = e.buildHTTP(s, hcPort)
+		}
+		return e.cli.Svc.UpdateAllConfigurer(cfgs, nil)
+	}
+	step := func(what string, set []hspec, d time.Duration) {
+		if len(finds) > 0 {
+			return // the first divergence is the finding; later steps would only wait for their timeouts
+		}
+		if msg := e.waitHTTP(set, d); msg != "" {
+			finds = append(finds, sysFinding{"system:http-routes-not-converged", what + ": " + msg, fmt.Sprintf("%+v", set)})
+		}
+	}
+	if !e.waitLive(true, 5*time.Second) {
+		return []sysFinding{{"system:client-never-logged-in", "no live session 5 s after start", "http routes"}}, nil
+	}
+	base := []hspec{
+		{name: 0, sub: true, nloc: 0}, {name: 1, sub: true, nloc: 1}, {name: 2, sub: true, nloc: 2}, {name: 3, sub: true, nloc: 3},
+		{name: 4, custom: 1, nloc: 2}, {name: 5, custom: 2, nloc: 2}, {name: 6, sub: true, custom: 1, nloc: 2}, {name: 7, custom: 1, nloc: 0},
+	}
+	bump := func(set []hspec) []hspec {
+		out := append([]hspec{}, set...)
+		for i := range out {
+			out[i].rev++
+		}
+		return out
+	}
+	if err := load(base); err != nil {
+		return nil, err
+	}
+	step("first load", base, wait)
+	// every entry changed in a field that does not touch the routes: closed and registered again
+	s2 := bump(base)
+	if err := load(s2); err != nil {
+		return nil, err
+	}
+	step("reload with every entry changed", s2, wait)
+	// number of locations changed
+	s3 := append([]hspec{}, s2...)
+	s3[0].nloc, s3[2].nloc, s3[4].nloc, s3[5].nloc = 2, 1, 0, 3
+	if err := load(s3); err != nil {
+		return nil, err
+	}
+	step("reload with other location lists", s3, wait)
+	// half removed, then added again
+	s4 := []hspec{s3[1], s3[3], s3[5], s3[7]}
+	if err := load(s4); err != nil {
+		return nil, err
+	}
+	step("reload that removes four entries", s4, wait)
+	if err := load(s3); err != nil {
+		return nil, err
+	}
+	step("reload that adds them again", s3, wait)
+	// identical reload: nothing may reach the server
+	e.plug.take()
+	if err := load(s3); err != nil {
+		return nil, err
+	}
+	time.Sleep(wait / 10)
+	step("identical reload", s3, wait)
+	for _, x := range e.plug.take() {
+		finds = append(finds, sysFinding{"system:unchanged-proxy-re-registered",
+			fmt.Sprintf("identical reload of the http set: the server handled %s for %s", []string{"", "NewProxy", "CloseProxy"}[x.kind], x.name), "http routes"})
+	}
+	// health cycle: subdomain + two locations, backend up -> down -> up
+	hcs := hspec{name: 8, sub: true, nloc: 2, hc: true}
+	s5 := append(append([]hspec{}, s4...), hcs)
+	if err := load(s5); err != nil {
+		return nil, err
+	}
+	step("health-checked entry added, backend up", s5, wait+3*time.Second)
+	bl.Close()
+	step("backend down: withdrawn", s4, wait+5*time.Second)
+	for i := 0; i < 50; i++ {
+		if bl, err = net.Listen("tcp", net.JoinHostPort(sysEchoAddr, fmt.Sprint(hcPort))); err == nil {
+			break
+		}
+		time.Sleep(20 * time.Millisecond)
+	}
+	if err != nil {
+		return finds, nil
+	}
+	go accept(bl)
+	// the withdrawn entry is configured: the client reports it, the server must have it again
+	step("backend up again: registered again", s5, wait+5*time.Second)
+	return finds, nil
+}
 
 type svcStep struct {
 	op   int // 0 login (start), 1 lost, 2 reload, 3 login again
@@ -534,6 +771,8 @@ func (e *sysEnv) restartServer() error {
 	for i := 0; i < 50; i++ {
 		e.srv, err = hx.StartServer(sysSrvAddr, func(c *v1.ServerConfig) {
 			c.BindPort = port
+			c.VhostHTTPPort = hx.FreePort(sysSrvAddr)
+			c.SubDomainHost = sysSubHost
 			c.HTTPPlugins = []v1.HTTPPluginOptions{{Name: "c19", Addr: "http://" + e.plug.ln.Addr().String(), Path: "/h",
 				Ops: []string{"NewProxy", "CloseProxy"}}}
 		})
@@ -990,6 +1229,24 @@ func runSystem(cfg *hx.RunCfg) error {
 		dist["held-reply-scenarios"]++
 	}
 	{
+		var finds []sysFinding
+		for _, w := range []time.Duration{2 * time.Second, 5 * time.Second, 12 * time.Second} {
+			f, err := runHTTPRoutes(w)
+			if err != nil {
+				return err
+			}
+			finds = f
+			if len(f) == 0 {
+				break
+			}
+			dist["rerun"]++
+		}
+		for _, f := range finds {
+			report(f)
+		}
+		dist["http-route-scenarios"]++
+	}
+	{
 		var p0 []sspec
 		var v0 []vsspec
 		var steps []svcStep
@@ -1030,6 +1287,16 @@ func runSystem(cfg *hx.RunCfg) error {
 			report(f)
 		}
 		dist["health-checked-identical-reload-scenarios"]++
+	}
+	{
+		probs, err := checkLegacyIni()
+		if err != nil {
+			return err
+		}
+		for _, p := range probs {
+			failures = append(failures, map[string]any{"key": "system:legacy-ini-differs-from-toml", "what": "real config loader: " + p, "case": "legacy.go: legacyIni / modernToml"})
+		}
+		dist["legacy-ini-vs-toml-checks"]++
 	}
 	// F-C19c (Properties/C19.v: C19_converges_with_async_replies_refuted), replayed on the real code:
 	// proxy p1 is changed by a reload while the NewProxy of the replaced wrapper is unanswered, and
